@@ -38,7 +38,7 @@ def run(ck, facts):
     applies = [n for n in C.walk(C.fn_body(f)) if n.get("k") == "mcall" and n.get("m") == "apply" and any(x.get("k") == "field" and x.get("n") == "abi_rename" for x in C.walk(n["recv"]))]
     if len(applies) == 1:
         arg_leaves = flow.trace(applies[0]["a"][0], defs)
-        lits = [l[1] for l in arg_leaves if l[0] == "lit"]
+        lits = [l[1] for l in arg_leaves if l[0] == "fmt"]
         ok1 = "{self_ident}_{method_ident}" in lits
         detail = "apply(%s)" % lits
         # the struct field derives from the apply result
@@ -93,8 +93,8 @@ def run(ck, facts):
     ok1 = False
     detail = ""
     if len(applies) == 1:
-        lits = [l[1] for l in flow.trace(applies[0]["a"][0], defs) if l[0] == "lit"]
-        ok1 = "{}_destroy" in lits
+        lits = [l[1] for l in flow.trace(applies[0]["a"][0], defs) if l[0] == "fmt"]
+        ok1 = any(re.match(r"^\{[\w.&*()]+\}_destroy$", l) for l in lits)
         detail = "apply(%s)" % lits
         # the returned ident derives from apply's result with no further formatting
         tail = C.fn_body(f).get("e")
